@@ -77,8 +77,11 @@ def nasty_mutations(tree):
 
 def hook_models():
     out = []
-    for exc in ('ValueError', 'KeyError', 'TypeError', 'RuntimeError', 'IndexError', 'AttributeError', 'ValueError!',
-                'AssertionError!', 'KeyError#'):
+    # every exception class with a message, without arguments (bare `raise KeyError`, a failed assert) and with
+    # non-string arguments
+    for exc in [e + suffix for e in ('ValueError', 'KeyError', 'TypeError', 'RuntimeError', 'IndexError', 'AttributeError',
+                                     'AssertionError', 'StopIteration', 'OSError', 'ZeroDivisionError', 'UserDefinedError',
+                                     'LookupError') for suffix in ('', '!', '#')]:
         out.append(('ctor-raises', {'classes': [{'name': 'K', 'params': [('a', 'int')], 'raises': exc}], 'root': ('cls', 'K')}))
         out.append(('ctor-raises', {'classes': [{'name': 'K', 'params': [('a', 'int')], 'raises': exc}],
                                     'root': ('dict', 'str', ('list', ('cls', 'K')))}))
